@@ -165,7 +165,7 @@ K6_CALL = [((a, "CM.GoTie.ICall." + t, d), "I_Call") for a, t, d in [
 
 PROPS = {
     "C01": ("load shedding: who is admitted is decided by `allowNewRun` / `run`",
-            [C("IsOpen"), C("allowNewRun"), RUN] + NEVER + ERR_OPEN),
+            [C("IsOpen"), C("allowNewRun"), RUN] + NEVER + ERR_OPEN + K6_CALL + K6_TRANS + K6_CORE),
     "C02": ("the built-in openers' method bodies, translated from today's opener.go / closers.go, are the model's functions",
             T("GoHOpener", evs("GoHOpener", "HOpener.onRun") + [
                 ("tie_GoHOpener_Opened", "CM.GoTie.GoHOpener.go_Opened_eq", "`Opened` resets both rolling counters"),
@@ -195,7 +195,7 @@ PROPS = {
     "C08": ("overrides and pass-through: `IsOpen`, `allowNewRun`, the transitions, `Execute`'s Disabled branch, the published flags",
             [C("IsOpen"), C("isEmptyOrNil"), C("allowNewRun"), C("openCircuit"), C("close"), C("attemptToOpen"), EXECUTE] + LIVECFG + SETCFG + ATOM_BOOL),
     "C09": ("transitions and their notifications",
-            [C("IsOpen"), C("openCircuit"), C("close"), C("attemptToOpen"), C("OpenCircuit"), C("CloseCircuit"), C("checkSuccess"), C("checkErrFailure"), C("checkErrTimeout")] + FAN_CIRC + SETCFG + ATOM_BOOL),
+            [C("IsOpen"), C("openCircuit"), C("close"), C("attemptToOpen"), C("OpenCircuit"), C("CloseCircuit"), C("checkSuccess"), C("checkErrFailure"), C("checkErrTimeout")] + FAN_CIRC + SETCFG + ATOM_BOOL + K6_TRANS + K6_CORE),
     "C10": ("panics: the deferred calls of `run` and `fallback` run on every exit", [RUN, FALLBACK, EXECUTE]),
     "C11": ("reconfiguration: what each SetConfigThreadSafe writes (circuit, hystrix opener, hystrix closer, SLO tracker) — every setting, nothing else",
             SETCFG + LIVECFG + OPENER_CFG + CLOSER_CFG + SLO_CFG),
